@@ -408,8 +408,10 @@ PROPS = {
                       "AddOperator/membership", "RemoveOperator/ok", "RemoveOperator/membership", "AddOperator/role_auth"],
              "control": c17_control},
             fees_job(["OpExecute/ok", "OpExecute/is_operator", "OpExecute/named_auth", "AddOperator/ok", "RemoveOperator/ok", "AddOperator/role_auth"]),
+            # unbounded histories, any number of operators and owners, on the design
+            {"kind": "apalache", "tiers": ["thorough"], "module": "OperatorsInd", "inv": "IndInv", "refute": "NotInvariant", "refute_init": "RefuteInit"},
         ],
-        "level_text": "TLC proves member-and-authorised-only forwarding, owner-only set changes (add absent / remove present) and intact forwarding (one probe record with the same target, function and argument; value returned unchanged; failing target fails the whole call) on every transition of a finite instance whose membership is three-valued (never / member / former); all transitions are executed against the real operators contract with recording probe contracts as targets.  Composed with the gas service whose collector the operators contract is (spec/Fees.tla, MC_Fees): forwarded collect_fees / refund / transfer_ownership with the authorisation given for the forwarding call, for the inner call only, or not at all.",
+        "level_text": "TLC proves member-and-authorised-only forwarding, owner-only set changes (add absent / remove present) and intact forwarding (one probe record with the same target, function and argument; value returned unchanged; failing target fails the whole call) on every transition of a finite instance whose membership is three-valued (never / member / former); all transitions are executed against the real operators contract with recording probe contracts as targets.  Composed with the gas service whose collector the operators contract is (spec/Fees.tla, MC_Fees): forwarded collect_fees / refund / transfer_ownership with the authorisation given for the forwarding call, for the inner call only, or not at all. Thorough additionally discharges, with Apalache, an inductive invariant of the design over unbounded histories, operator sets and owners (spec/apalache/OperatorsInd.tla).",
         "rule": "cases = transitions of the bounded TLC instance replayed against the contracts; distinct = distinct (membership history state, action) pairs",
         "assumptions": ["soroban-env-host test mode implements on-chain semantics", "bounds: 2 candidate operators, 2 owners, 2 probe targets, 4 return-value kinds"],
     },
